@@ -152,6 +152,13 @@ pub fn run(tier: Tier) -> i32 {
             }
         }
     }
+    // the same invariance through analyze_dir (the path of the command-line program)
+    let pool: Vec<crate::synth::Prog> = corpus::build_small().progs.into_iter().filter(|p| p.tag.starts_with("S.pool") || p.tag.contains("atom.")).collect();
+    let (dvs, dstates, dcalls) = crate::fsx::dir_layout_check(&pool, "C17");
+    run.merge_violations(dvs);
+    layouts += dstates;
+    calls += dcalls;
+    run.set("directory_level_layout_states", dstates);
     run.set("states", layouts);
     run.set("transitions", calls);
     run.set("traces_validated_against_impl", parsed);
